@@ -42,8 +42,8 @@ theorem visit_inert (cfg : Config) : ∀ (f : Nat) (root : Bool) (n : Node) (s :
 /-- the result of visiting one node, relative to the counter before and after -/
 def VRes (root : Bool) (s s' : St) (n' n : Node) : Prop :=
   match root with
-  | true => ∃ hi, VC 0 hi n' n
-  | false => s.counter ≤ s'.counter ∧ VC s.counter s'.counter n' n
+  | true => ∃ hi, EVC 0 hi n' n
+  | false => s.counter ≤ s'.counter ∧ EVC s.counter s'.counter n' n
 
 def KRes (root : Bool) (s s' : St) (ks' ks : List Node) : Prop :=
   match root with
@@ -144,7 +144,7 @@ theorem DeepEr_of_parts (cx : Cx) (lo hi : Nat) (elems' : List Node) (asp : Span
     | _ => simp [strip] at hst
   | _ => simp [argInner] at hx
 
-theorem DeepEr_of_VC {lo hi : Nat} {a' a : Node} (cx : Cx) (h : VC lo hi a' a) (hs : srcOk a = true) : DeepEr cx lo hi a' a := by
+theorem DeepEr_of_VC {lo hi : Nat} {a' a : Node} (cx : Cx) (h : EVC lo hi a' a) (hs : srcOk a = true) : DeepEr cx lo hi a' a := by
   intro elems' asp he
   exact DeepEr_of_parts cx lo hi elems' asp a' a h.2.2.1 h.1 hs he
 
